@@ -67,17 +67,18 @@ func runC08(c *eng.Ctx) {
 			if !ok || v.IsField() {
 				return false
 			}
-			// comma-ok of a lookup in cachedObjects
-			found := false
-			eng.InspectNoLit(hwe.Decl.Body, func(m ast.Node) bool {
-				if as, isA := m.(*ast.AssignStmt); isA && len(as.Lhs) == 2 && len(as.Rhs) == 1 && eng.SelObj(info, as.Lhs[1]) == v {
-					if ix, isIx := ast.Unparen(as.Rhs[0]).(*ast.IndexExpr); isIx && eng.IsField(info, ix.X, cached) {
-						found = true
-					}
+			// comma-ok of a lookup in cachedObjects, possibly handed over through another local
+			srcs := valueSources(info, hwe.Decl.Body, fc.X, 4)
+			if len(srcs) == 0 {
+				return false
+			}
+			for _, src := range srcs {
+				ix, isIx := ast.Unparen(src).(*ast.IndexExpr)
+				if !isIx || !eng.IsField(info, ix.X, cached) {
+					return false
 				}
-				return true
-			})
-			return found
+			}
+			return true
 		}
 		isCaseOf := func(objs ...types.Object) func(fc eng.Fact) bool {
 			return func(fc eng.Fact) bool {
